@@ -33,6 +33,10 @@ CLAIMS = {
    text='Refinement theorems C14_right_offset, C14_left_offset, C14_span_lr, C14_span_stride, findNextMultipleM_refines: for all eight index types, whenever the span (zeros counted as one) is representable the machine-integer mirror returns ok of the mathematical value - no overflow, no division by zero. Tied three ways: every op line the Lean predicate admB marks admissible must run trap-free under UBSan-trap op servers (mappings and submdspan_mapping), signed beyond-boundary lines must trap exactly where the machine layer predicts, and a sample of admissible cases is evaluated as constexpr variables and compared with the run-time values.',
    tech='Lean 4 refinement proofs (machine integers -> naturals) + UBSan-trap and constexpr correspondence',
    note='Refinement theorems exist for left/right offsets, left/right/stride spans and find_next_multiple; padded offsets, stride(r) loops, is_exhaustive and submdspan arithmetic are tied by the transcript only (model agrees with the code on every admissible and inadmissible line) - extending the theorems is ongoing.'),
+ 'C09': dict(ref='7/C09', partial='the compiler\'s template instantiation (decltype, is_convertible) is trusted; the model speaks about type descriptors.',
+   text='Theorems C09_static, C09_rank, C09_layout (with C09_preserveLeft/Right): for source patterns and slice-type lists of every length the metafunctions (StaticExtentFromRange/StridedRange, the fold expressions of preserve_layout_left/right_mapping) compute exactly the slicing rule: rank = number of non-index slices, static extents and values, layout kept iff full* (full|pair)? index* (mirror image for layout_right). Tied by decltype probes of submdspan_mapping, submdspan_extents and submdspan (element type, offset_policy, index type carried over) over all tuples of 14 slice types for rank 1-2, 500 sampled (thorough: all) rank-3 tuples and sampled rank 4-6, compared with the model and with the rule.',
+   tech='Lean 4 proof (Impl = Spec by induction on the slice list) + compile-time type probes',
+   note='Probes use index type int plus four others on a subset; quick tier compiles with g++ -std=c++23 only, thorough adds clang and C++17/20.'),
 }
 NOT_YET = 'check not built yet (work in progress; DESIGN.md section 7 describes the planned proof and correspondence)'
 
